@@ -2,7 +2,8 @@
 
 unroll_constant_loops: `for v in <constant tuple of constants>: body` (also `for v, w in zip(<constant tuple>, expr)` and
 `for i, v in enumerate(<constant tuple>)`) becomes the sequence of bodies with v replaced by each constant; inside, `getattr(o, "a")`
-becomes `o.a` and `setattr(o, "a", e)` becomes `o.a = e`.  Loops whose body contains break/continue/else are left alone."""
+becomes `o.a` and `setattr(o, "a", e)` becomes `o.a = e`.  `for a, b in (("u", u), ("v", v))` (rows of constants and plain names written
+in place) is unrolled the same way.  Loops whose body contains break/continue/else are left alone."""
 from __future__ import annotations
 
 import ast
@@ -109,6 +110,13 @@ class _Unroller(ast.NodeTransformer):
                 s0 = _const_seq(self.tree, self.fi, it.args[0])
                 if s0 is not None:
                     plans = [{a: ast.Constant(value=i), b: ast.Constant(value=x)} for i, x in enumerate(s0)]
+        if plans is None and isinstance(node.target, ast.Tuple) and all(isinstance(e, ast.Name) for e in node.target.elts) and isinstance(it, (ast.Tuple, ast.List)) and \
+                it.elts and all(isinstance(r, (ast.Tuple, ast.List)) and len(r.elts) == len(node.target.elts) and
+                                all(isinstance(x, (ast.Constant, ast.Name)) or (isinstance(x, ast.Attribute) and isinstance(x.value, ast.Name)) for x in r.elts) for r in it.elts):
+            # for a, b in (("u", u), ("v", v)): rows written out in place, made of constants and plain names
+            srcs = {x.id if isinstance(x, ast.Name) else x.value.id for r in it.elts for x in r.elts if not isinstance(x, ast.Constant)}
+            if not _stores(node.body, srcs):
+                plans = [{t.id: copy.deepcopy(x) for t, x in zip(node.target.elts, r.elts)} for r in it.elts]
         if plans is None or len(plans) > 16:
             return node
         names = set().union(*[set(p) for p in plans]) if plans else set()
